@@ -300,14 +300,71 @@ def _shard_entry(args):
         return r.as_dict()
 
 
+def _shard_process(args, outfile, crumbfile):
+    os.environ["VF_CRUMB_FILE"] = crumbfile
+    res = _shard_entry(args)
+    tmp = outfile + ".tmp"
+    with open(tmp, "w") as f:
+        json.dump(res, f, default=_json_default)
+    os.replace(tmp, outfile)
+
+
+def leave_crumb(case):
+    """Record the case about to be evaluated, so that a crash of the worker process can be attributed."""
+    p = os.environ.get("VF_CRUMB_FILE")
+    if p:
+        try:
+            with open(p, "w") as f:
+                f.write(canon(case)[:20000])
+        except OSError:
+            pass
+
+
 def run_shards(fn, nshards: int, **kwargs) -> list[dict]:
-    """Run fn(shard=i, nshards=n, **kwargs) in separate processes; returns list of dict results."""
+    """Run fn(shard=i, nshards=n, **kwargs) in separate forked processes; returns list of dict results.
+
+    Each shard is its own process writing its result to a file, so that a worker killed by a signal (e.g. a generated
+    kernel that segfaults) cannot hang the run: it is reported with the case it was evaluating.
+    """
     jobs = [(fn, i, nshards, kwargs) for i in range(nshards)]
     if nshards == 1 or os.environ.get("VF_SERIAL"):
         return [_shard_entry(j) for j in jobs]
     ctx = multiprocessing.get_context("fork")
-    with ctx.Pool(min(NPROC, nshards), maxtasksperchild=1) as pool:
-        return pool.map(_shard_entry, jobs, chunksize=1)
+    base = tempfile.mkdtemp(prefix="vf-shards-", dir=os.environ.get("VERIF_SCRATCH") or tempfile.gettempdir())
+    results: list[dict] = []
+    try:
+        pending = list(enumerate(jobs))
+        running: dict[int, tuple] = {}
+        while pending or running:
+            while pending and len(running) < NPROC:
+                i, job = pending.pop(0)
+                out = os.path.join(base, f"shard{i}.json")
+                crumb = os.path.join(base, f"shard{i}.crumb")
+                p = ctx.Process(target=_shard_process, args=(job, out, crumb))
+                p.start()
+                running[i] = (p, out, crumb)
+            for i in list(running):
+                p, out, crumb = running[i]
+                p.join(timeout=0.2)
+                if p.is_alive():
+                    continue
+                del running[i]
+                if os.path.exists(out):
+                    with open(out) as f:
+                        results.append(json.load(f))
+                else:
+                    case = ""
+                    if os.path.exists(crumb):
+                        with open(crumb) as f:
+                            case = f.read()
+                    r = ShardResult()
+                    r.harness_errors.append(f"WORKER-CRASH shard {i} exit code {p.exitcode} (negative = signal) while evaluating case: {case[:6000]}")
+                    d = r.as_dict()
+                    d["crash"] = {"exitcode": p.exitcode, "case": case}
+                    results.append(d)
+    finally:
+        shutil.rmtree(base, ignore_errors=True)
+    return results
 
 
 def pmap(fn, items, nproc: int | None = None, chunksize: int = 1):
